@@ -81,6 +81,8 @@ def probes(topo, origin, situation, rules_body):
 
     def fresh(proto):
         def f():
+            while not origin.q.empty():        # tunnels of other clients that got through meanwhile are not this probe's
+                origin.q.get().close()
             c, rep = topo.open(proto, "direct", T, timeout=DEADLINE)
             ok = bb.established(rep)
             if ok:
